@@ -591,6 +591,10 @@ class CSemantics:
         else:
             self.error("Case statement outside of a switch!", location)
 
+        # A case label is an integer constant expression (C11 6.8.4.2):
+        for case_value in value if isinstance(value, tuple) else (value,):
+            self.ensure_integer(case_value)
+
         if isinstance(value, tuple):
             value1, value2 = value
             self.ensure_constant(value1, "case value")
